@@ -117,6 +117,7 @@ def build_world(case, extra_molecule=True):
     class Top:
         volumes = {'A': 0.4}
         bending = {}
+        molecules = mols          # the engine addresses molecules by their index in the topology
     eng = nbe.NonBondEngine.from_topology(mols, Top, np.array([10.0, 10.0, 10.0]))
     return meta, mols, eng
 
